@@ -158,7 +158,7 @@ func (s *Server) processInitial(dctx *dnsContext) (rc resultCode) {
 
 	q := pctx.Req.Question[0]
 	qt := q.Qtype
-	if s.conf.AAAADisabled && qt == dns.TypeAAAA {
+	if qt == dns.TypeAAAA && s.aaaaDisabled() {
 		pctx.Res = s.NewMsgNODATA(pctx.Req)
 
 		return resultCodeFinish
@@ -510,7 +510,7 @@ func (s *Server) processUpstream(dctx *dnsContext) (rc resultCode) {
 //
 // TODO(a.garipov, e.burkov): This should probably be done in module dnsproxy.
 func (s *Server) setReqAD(req *dns.Msg) (wantsDNSSEC bool) {
-	if !s.conf.EnableDNSSEC {
+	if !s.dnssecEnabled() {
 		return false
 	}
 
@@ -542,7 +542,7 @@ func hasDO(msg *dns.Msg) (do bool) {
 // setRespAD changes the request and response based on the server settings and
 // the original request data.
 func (s *Server) setRespAD(pctx *proxy.DNSContext, reqWantsDNSSEC bool) {
-	if s.conf.EnableDNSSEC && !reqWantsDNSSEC {
+	if !reqWantsDNSSEC && s.dnssecEnabled() {
 		pctx.Req.AuthenticatedData = false
 		pctx.Res.AuthenticatedData = false
 	}
